@@ -1,9 +1,29 @@
 // C08 harness: RectClip (real code, in-process).  Spec level: `RECTCLIPCHECK rect path result probes` is judged by the
 // exact Spec in Lean (winding numbers at probe points, containment, orientation, new vertices on the boundary).
 // Model level: bounds shortcuts, StartLocsAreClockwise, AddCorner (both overloads), the corner loop, and the three
-// generated Location helpers.
+// generated Location helpers; `RCAUTO rect path -> raw ring + start_locs_`: the location/corner automaton
+// RectClip64::ExecuteInternal called directly (private members read through `#define private public`), its result
+// ring results_[0] read before CheckEdges/TidyEdges run, compared bit for bit with Model/RectClipAuto.lean.
+#include <algorithm>
+#include <cmath>
+#include <cstdint>
+#include <cstdlib>
+#include <cstdio>
+#include <cstring>
+#include <deque>
+#include <functional>
+#include <map>
+#include <numeric>
+#include <sstream>
+#include <string>
+#include <vector>
+#include <limits>
+#define private public
+#define protected public
 #include "common.h"
 #include "clipper.rectclip.cpp"  // the library source itself (found through -I <repo>/CPP/Clipper2Lib/src)
+#undef private
+#undef protected
 using namespace vh;
 
 static const int64_t B40 = (int64_t)1 << 40;
@@ -100,7 +120,56 @@ static std::string probes_for(Rng& g, const Rect64& r, const Path64& p, size_t& 
   return s;
 }
 
+// The corner loops of ExecuteInternal, `do { ... } while (prev != loc)`, cannot end when `loc == Inside`; that happens exactly
+// when GetIntersection reports "no crossing" for a segment whose end point GetNextLocation classified Inside (strictly inside
+// the rectangle) although its other end is not strictly inside.  Decided here with the real GetIntersection *before* the
+// real RectClip is called: a hit would be a hang of the library (F record), not of the harness.
+static bool strictly_inside(const Rect64& r, const Point64& q) { return q.x > r.left && q.x < r.right && q.y > r.top && q.y < r.bottom; }
+static bool would_hang(const Rect64& r, const Path64& p, std::string& why) {
+  if (r.IsEmpty() || p.size() < 3) return false;
+  Rect64 b = GetBounds(p);
+  if (!r.Intersects(b) || r.Contains(b)) return false;
+  Path64 rp = r.AsPath();
+  size_t n = p.size();
+  for (size_t i = 0; i < n; ++i) {
+    const Point64& cur = p[i]; const Point64& prv = p[(i + n - 1) % n];
+    if (!strictly_inside(r, cur) || strictly_inside(r, prv)) continue;
+    Location l = Location::Inside; Point64 ip;
+    if (!GetIntersection(rp, cur, prv, l, ip)) { why = "segment " + S(prv) + " -> " + S(cur); return true; }
+  }
+  return false;
+}
+
+// model level: the automaton.  Replicates the per-path steps of RectClip64::Execute up to ExecuteInternal.
+static void do_auto(const std::string& label, const Rect64& r, const Path64& p) {
+  if (r.IsEmpty() || p.size() < 3) return;
+  RectClip64 rc(r);
+  rc.path_bounds_ = GetBounds(p);
+  if (!rc.rect_.Intersects(rc.path_bounds_) || rc.rect_.Contains(rc.path_bounds_)) return;
+  g_current = "RCAUTO " + SR(r) + " " + S(p);
+  rc.ExecuteInternal(p);
+  std::string exp;
+  if (rc.results_.empty()) exp = "0";
+  else {
+    if (rc.results_.size() != 1) emitF(label + ".auto", "ExecuteInternal left more than one ring in results_: " + g_current);
+    Path64 ring; OutPt2* op = rc.results_[0]; OutPt2* q = op; size_t guard = 0;
+    do { ring.push_back(q->pt); if (q->next->prev != q) { emitF(label + ".auto", "ring links inconsistent: " + g_current); break; } q = q->next; }
+    while (q != op && ++guard < 100000000);
+    exp = S(ring);
+    stat("auto.ring_points", (long long)ring.size());
+  }
+  exp += " " + std::to_string(rc.start_locs_.size());
+  for (Location l : rc.start_locs_) exp += " " + std::to_string((int)l);
+  emitM(label + ".auto.model", "RCAUTO " + SR(r) + " " + S(p), exp);
+  stat(rc.results_.empty() ? "auto.empty" : "auto.ring");
+  stat("auto.start_locs", (long long)rc.start_locs_.size());
+}
+
 static void do_clip(Rng& g, const std::string& label, const Rect64& r, const Path64& p, bool force = false) {
+  g_current = "RECTCLIP " + SR(r) + " " + S(p);
+  { std::string why;
+    if (would_hang(r, p, why)) { emitF(label + ".hang", "GetIntersection finds no crossing for a segment entering the rectangle (" + why + "): ExecuteInternal would not terminate: " + g_current); stat("would_hang"); return; } }
+  do_auto(label, r, p);
   g_current = "RECTCLIP " + SR(r) + " " + S(p);
   Paths64 out = RectClip(r, Paths64{p});
   // model level: bounds shortcuts
@@ -119,6 +188,7 @@ static void do_clip(Rng& g, const std::string& label, const Rect64& r, const Pat
     stat(exp == "general" ? "class.general" : (exp == "0" ? "class.shortcut_empty" : "class.shortcut_inside"));
   }
   if (!force && !r.IsEmpty() && in_lost_crossing_class(r, p)) { stat("skipped_spec.kf_lost_crossing_class"); return; }
+  if (exp == "general") emitS(label + ".auto.hyp", "RCAUTOHYP " + SR(r) + " " + S(p));
   size_t np = 0;
   std::string probes = probes_for(g, r, p, np);
   emitS(label + ".spec", "RECTCLIPCHECK " + SR(r) + " " + S(p) + " " + S(out) + " " + probes);
@@ -367,6 +437,7 @@ int main(int argc, char** argv) {
   {
     Rect64 r(347, 434, 67109211, 67109298);
     Path64 p{Point64(-28115609, 29720495), Point64(95231410, -100663865), Point64(1000, 1000)};
+    do_auto("kf.lost_crossing", r, p);
     Paths64 out = RectClip(r, Paths64{p});
     emitS("kf.lost_crossing.spec", "RECTCLIPCHECK " + SR(r) + " " + S(p) + " " + S(out) + " 2 1500 1500 100 100");
   }
@@ -379,6 +450,7 @@ int main(int argc, char** argv) {
   {
     Rect64 r(22, 3, 63, 56);
     Path64 p{Point64(-176, 73), Point64(316, 38), Point64(34, 11)};
+    do_auto("kf.boundary_sliver", r, p);
     Paths64 out = RectClip(r, Paths64{p});
     emitS("kf.boundary_sliver.spec", "RECTCLIPCHECK_STRICT " + SR(r) + " " + S(p) + " " + S(out) + " 3 125 79 80 60 200 200");
   }
